@@ -554,12 +554,54 @@ theorem EB_prepareContent (env : Env) (cfg : Config) (st : St) (content : Arg) (
     | intro _
     | split
 
+/-- the options of a header that are not `None` -/
+def presentOpts (options : List (Bytes × Option HVal)) : List (Bytes × HVal) :=
+  options.filterMap (fun p => p.2.map (fun v => (p.1, v)))
+
+/-- `_write_section_header` after the value check has passed -/
+def renderBody (sec : SecId) (options : List (Bytes × Option HVal)) : E Bytes :=
+  let sorted := sortOpts (presentOpts options)
+  let pairs : List Text := sorted.map (fun p => Text.ofAscii p.1 ++ [61] ++ p.2.text)
+  let optionsStr : Text := (pairs.intersperse [44, 32]).flatten
+  if !isAsciiText optionsStr then throw .otherError
+  else
+    let head := [35] ++ sec.bytes ++ [58]
+    pure (if optionsStr.isEmpty then head ++ [10] else head ++ [32] ++ optionsStr.toAscii ++ [10])
+
+theorem renderHeader_eq (sec : SecId) (options : List (Bytes × Option HVal)) :
+    renderHeader sec options =
+      if (presentOpts options).any (fun p => valueRefused p.2) then throw .optionError
+      else renderBody sec options := rfl
+
+/-- an accepted header: no value was refused, and the bytes are those of the body -/
+theorem renderHeader_ok (sec : SecId) (options : List (Bytes × Option HVal)) (h : Bytes)
+    (hr : renderHeader sec options = .ok h) :
+    (∀ p ∈ presentOpts options, valueRefused p.2 = false) ∧ renderBody sec options = .ok h := by
+  rw [renderHeader_eq] at hr
+  split at hr
+  · cases hr
+  · rename_i hany
+    refine ⟨?_, hr⟩
+    intro p hp
+    cases hv : valueRefused p.2 with
+    | false => rfl
+    | true => exact absurd (List.any_eq_true.mpr ⟨p, hp, hv⟩) hany
+
+/-- a refused value: `DiffXOptionValueError`, whatever else the header holds -/
+theorem renderHeader_refused (sec : SecId) (options : List (Bytes × Option HVal)) (p : Bytes × HVal)
+    (hp : p ∈ presentOpts options) (hv : valueRefused p.2 = true) :
+    renderHeader sec options = .error .optionError := by
+  rw [renderHeader_eq, if_pos (List.any_eq_true.mpr ⟨p, hp, hv⟩)]
+  rfl
+
 theorem EB_renderHeader (sec : SecId) (opts : List (Bytes × Option HVal)) : EB (renderHeader sec opts) := by
   unfold renderHeader
   dsimp only
   split
-  · exact EB_throw _ benign_other
-  · exact EB_pure _
+  · exact EB_throw _ benign_option
+  · split
+    · exact EB_throw _ benign_other
+    · exact EB_pure _
 
 theorem renderHeader_ne_nil (sec : SecId) (opts : List (Bytes × Option HVal)) (h : Bytes)
     (hr : renderHeader sec opts = .ok h) : h ≠ [] := by
@@ -567,8 +609,10 @@ theorem renderHeader_ne_nil (sec : SecId) (opts : List (Bytes × Option HVal)) (
   dsimp only at hr
   split at hr
   · cases hr
-  · cases hr
-    split <;> simp
+  · split at hr
+    · cases hr
+    · cases hr
+      split <;> simp
 
 theorem EB_containerPayload (st : St) (name : SecName) (level : Nat) (enc : Option Name)
     (extra : List (Bytes × Option HVal)) : EB (containerPayload st name level enc extra) := by
@@ -932,5 +976,174 @@ theorem level_invariant (env : Env) (cfg : Config) (enc : Option Name) (ver : Te
     | nil => intro st h; exact h
     | cons c cs ih => intro st h; exact ih _ (step_levelInv env cfg st c h)
   exact key cs _ (init_levelInv enc ver hi)
+
+/-! ### refused option values (`DiffXOptionValueError` of `_write_section_header`) -/
+
+/-- what a `str` value that is not refused looks like: ASCII, made of option-value
+characters, and not something `int()` accepts -/
+theorem valueRefused_str_false (t : Text) (h : valueRefused (.str t) = false) :
+    isAsciiText t = true ∧ Header.valOk t.toAscii = true ∧
+      Header.convert t.toAscii = .str t.toAscii := by
+  unfold valueRefused at h
+  simp only [HVal.text, Bool.or_eq_false_iff, Bool.not_eq_eq_eq_not, Bool.not_false,
+    Bool.and_eq_true] at h
+  obtain ⟨⟨ha, hv⟩, hc⟩ := h
+  refine ⟨ha, hv, ?_⟩
+  by_cases hp : Header.pyIntOk t.toAscii = true
+  · simp [Header.convert, hp] at hc
+  · simp [Header.convert, hp]
+
+/-- any value that is not refused is ASCII and made of option-value characters -/
+theorem valueRefused_false (v : HVal) (h : valueRefused v = false) :
+    isAsciiText v.text = true ∧ Header.valOk v.text.toAscii = true := by
+  unfold valueRefused at h
+  simp only [Bool.or_eq_false_iff, Bool.not_eq_eq_eq_not, Bool.not_false, Bool.and_eq_true] at h
+  exact h.1
+
+theorem mem_presentOpts (options : List (Bytes × Option HVal)) (k : Bytes) (v : HVal)
+    (h : (k, some v) ∈ options) : (k, v) ∈ presentOpts options :=
+  List.mem_filterMap.mpr ⟨(k, some v), h, rfl⟩
+
+/-- every value of an accepted header was not refused -/
+theorem renderHeader_ok_value (sec : SecId) (options : List (Bytes × Option HVal)) (h : Bytes)
+    (hr : renderHeader sec options = .ok h) (k : Bytes) (v : HVal) (hm : (k, some v) ∈ options) :
+    valueRefused v = false :=
+  (renderHeader_ok sec options h hr).1 (k, v) (mem_presentOpts options k v hm)
+
+/-- the `encoding=` argument of a call -/
+def callEncoding : Call → Option Name
+  | .newChange e => e
+  | .newFile e => e
+  | .preamble _ e _ _ _ => e
+  | .metadata _ e _ => e
+  | .diff _ _ e _ => e
+
+theorem containerPayload_ok_enc (st : St) (name : SecName) (level : Nat) (n : Name)
+    (extra : List (Bytes × Option HVal)) (x : Bytes × List (Option Name))
+    (h : containerPayload st name level (some n) extra = .ok x) : valueRefused (.str n) = false := by
+  unfold containerPayload at h
+  split at h
+  · cases h
+  · rename_i header hh
+    exact renderHeader_ok_value _ _ _ hh b!"encoding" (.str n) (by simp)
+
+theorem contentPayload_ok_enc (env : Env) (cfg : Config) (st : St) (name : SecName) (content : Arg)
+    (lineEndings : Option Text) (n : Name) (indent : Option Int)
+    (writeLe : Bool) (inherit : Bool) (extra : List (Bytes × Option HVal)) (x : Bytes × List (Option Name))
+    (h : contentPayload env cfg st name content lineEndings (some n) indent writeLe inherit extra = .ok x) :
+    valueRefused (.str n) = false := by
+  unfold contentPayload at h
+  split at h
+  · cases h
+  · split at h
+    · cases h
+    · rename_i header hh
+      exact renderHeader_ok_value _ _ _ hh b!"encoding" (.str n) (by simp)
+
+theorem payload_ok_enc (env : Env) (cfg : Config) (st : St) (c : Call) (n : Name)
+    (hn : callEncoding c = some n) (x : Bytes × List (Option Name))
+    (h : payload env cfg st c = .ok x) : valueRefused (.str n) = false := by
+  cases c with
+  | newChange enc => cases hn; exact containerPayload_ok_enc _ _ _ _ _ _ h
+  | newFile enc => cases hn; exact containerPayload_ok_enc _ _ _ _ _ _ h
+  | preamble text enc indent le mime => cases hn; exact contentPayload_ok_enc _ _ _ _ _ _ _ _ _ _ _ _ h
+  | metadata m enc fmt =>
+    cases hn
+    simp only [payload] at h
+    split at h
+    · split at h
+      · exact contentPayload_ok_enc _ _ _ _ _ _ _ _ _ _ _ _ h
+      · cases h
+    · cases h
+  | diff content dtype enc le => cases hn; exact contentPayload_ok_enc _ _ _ _ _ _ _ _ _ _ _ _ h
+
+/-- an accepted call's own `encoding=` argument was not refused -/
+theorem step_ok_enc (env : Env) (cfg : Config) (st : St) (c : Call) (n : Name)
+    (hn : callEncoding c = some n) (h : (step env cfg st c).2 = .ok) :
+    valueRefused (.str n) = false := by
+  rw [step_eq] at h
+  split at h
+  · rename_i e he; exact absurd h (pre_benign _ _ _ he).1
+  · split at h
+    · rename_i e he
+      obtain ⟨rfl, _⟩ := validate_error _ _ _ he
+      cases h
+    · split at h
+      · rename_i e he; exact absurd h ((EB_payload ..).1 _ he).1
+      · rename_i b stk hp
+        exact payload_ok_enc env cfg st c n hn _ hp
+
+/-- a call whose own `encoding=` argument is refused is rejected and leaves the writer unchanged -/
+theorem step_refused_enc (env : Env) (cfg : Config) (st : St) (c : Call) (n : Name)
+    (hn : callEncoding c = some n) (hv : valueRefused (.str n) = true) :
+    (step env cfg st c).2 ≠ .ok ∧ (step env cfg st c).1 = st := by
+  have hne : (step env cfg st c).2 ≠ .ok := by
+    intro hok
+    rw [step_ok_enc env cfg st c n hn hok] at hv
+    cases hv
+  exact ⟨hne, step_atomic env cfg st c hne⟩
+
+theorem containerPayload_refused (st : St) (name : SecName) (level : Nat) (n : Name)
+    (extra : List (Bytes × Option HVal)) (hv : valueRefused (.str n) = true) :
+    containerPayload st name level (some n) extra = .error .optionError := by
+  unfold containerPayload
+  rw [renderHeader_refused _ _ (b!"encoding", .str n) (mem_presentOpts _ _ _ (by simp)) hv]
+
+/-- a container call with a refused encoding that is in order: `DiffXOptionValueError`,
+nothing written, writer unchanged -/
+theorem step_container_refused (env : Env) (cfg : Config) (st : St) (c : Call) (n : Name)
+    (hc : c = .newChange (some n) ∨ c = .newFile (some n)) (hv : valueRefused (.str n) = true)
+    (ho : ∀ p, st.prev = some p → secOf st c ∈ Spec.next p) :
+    step env cfg st c = (st, .optionError) := by
+  have hval : validate st (secOf st c) = .ok () :=
+    (validate_ok_iff _ _).2 (fun q hq => (validNext_iff_spec _ _).2 (ho q hq))
+  rw [step_eq, hval]
+  rcases hc with rfl | rfl
+  · simp only [pre, payload, containerPayload_refused _ _ _ _ _ hv]
+  · simp only [pre, payload, containerPayload_refused _ _ _ _ _ hv]
+
+/-- an accepted constructor call: the `encoding` argument was not refused -/
+theorem init_ok_enc (n : Name) (ver : Text) (hi : (init (some n) ver).2 = .ok) :
+    valueRefused (.str n) = false := by
+  unfold init at hi
+  split at hi
+  · cases hi
+  · dsimp only at hi
+    rw [newContainer_run] at hi
+    simp only [emit, validate, pure, Except.pure] at hi
+    generalize hpl : containerPayload _ _ _ _ _ = pl at hi
+    cases pl with
+    | error e => exact absurd hi ((EB_containerPayload ..).1 _ hpl).1
+    | ok x => exact containerPayload_ok_enc _ _ _ _ _ _ hpl
+
+/-- an accepted constructor call had `encoding=None` or a non-empty name -/
+theorem init_ok_truthy (enc : Option Name) (ver : Text) (hi : (init enc ver).2 = .ok) :
+    enc = none ∨ truthy enc = true := by
+  cases enc with
+  | none => exact .inl rfl
+  | some n =>
+    right
+    have h := (valueRefused_str_false n (init_ok_enc n ver hi)).2.1
+    cases n with
+    | nil => simp [Header.valOk, Text.toAscii] at h
+    | cons a r => rfl
+
+/-- the stack right after construction -/
+theorem init_ok_stack (enc : Option Name) (ver : Text) (hi : (init enc ver).2 = .ok) :
+    (init enc ver).1.stack = pushFrame [enc] 1 enc := by
+  unfold init at hi ⊢
+  split at hi
+  · cases hi
+  · rename_i hver
+    simp only [hver] at hi ⊢
+    rw [newContainer_run] at hi ⊢
+    simp only [emit, validate, pure, Except.pure] at hi ⊢
+    generalize hpl : containerPayload _ _ _ _ _ = pl at hi ⊢
+    cases pl with
+    | error e => exact absurd hi ((EB_containerPayload ..).1 _ hpl).1
+    | ok x =>
+      obtain ⟨b, stk⟩ := x
+      obtain ⟨_, rfl⟩ := containerPayload_ok _ _ _ _ _ _ _ hpl
+      rfl
 
 end Diffx.Writer
